@@ -58,11 +58,20 @@ def lengths_of(fmt):
     return max(lo, 1), hi
 
 
-def codec_symbolic(rep, fmt, typ):
+def codec_symbolic(rep, fmt, typ, padded=False):
+    """padded: the lemma for a variable-length element written without a separator,
+    decode(pad(encode(v))) == v and len(pad(encode(v))) == _max_length (what info() cuts off)"""
     import stdnum.gs1_128 as gs1
     enc = front.func_of(gs1._encode_value, Func)
     dec = front.func_of(gs1._decode_value, Func)
-    oid = 'C16/codec/%s/%s' % (typ, fmt)
+    pad = front.func_of(gs1._pad_value, Func)
+    oid = 'C16/%s/%s/%s' % ('padded-codec' if padded else 'codec', typ, fmt)
+    if padded:
+        try:
+            ml = gs1._max_length(fmt, typ)
+        except Exception:      # noqa: B902
+            rep.add(oid, 'undecided', detail='_max_length does not understand the format (C11 finding)')
+            return
     t0 = time.time()
     rng = lengths_of(fmt)
     if rng is None:
@@ -72,17 +81,25 @@ def codec_symbolic(rep, fmt, typ):
     numeric = fmt.lstrip('[').startswith('N')
     alpha = isets.DIGITS if numeric and '+X' not in fmt else GS1_CHARS
     bad = None
-    for n in range(lo, hi + 1):
+    for n in ([hi] if typ == 'int' else range(lo, hi + 1)):      # int: one unknown below 10**hi covers every length
         def run(I, ctx, n=n):
             if typ == 'int':
                 v = ctx.fresh_int('v')
                 ctx.add(z3.And(v >= 0, v < 10 ** min(n, 18)))
                 s = I.call(enc, [fmt, typ, v], {}, {}, enc.module)
+                if padded:
+                    s = I.call(pad, [fmt, typ, s], {}, {}, pad.module)
+                    if not isinstance(s, (str, FixedStr)) or len(s) != ml:
+                        return z3.BoolVal(False), v
                 back = I.call(dec, [fmt, typ, s], {}, {}, dec.module)
                 return toz3(Eq(back, v)), v
             chars = [ctx.fresh_char(alpha, 'v') for _ in range(n)]
             v = FixedStr(chars)
             s = I.call(enc, [fmt, typ, v], {}, {}, enc.module)
+            if padded:
+                s = I.call(pad, [fmt, typ, s], {}, {}, pad.module)
+                if not isinstance(s, (str, FixedStr)) or len(s) != ml:
+                    return z3.BoolVal(False), v
             back = I.call(dec, [fmt, typ, s], {}, {}, dec.module)
             c = str_eq(back, v) if isinstance(back, (str, FixedStr)) else False
             return toz3(c), v
@@ -107,20 +124,22 @@ def codec_symbolic(rep, fmt, typ):
                 return
         if bad:
             break
-        if typ == 'int':
-            break
     if bad is None:
-        rep.add(oid, 'proved', 'z3', time.time() - t0, detail='decode(encode(v)) == v for every admitted v of length %d..%d' % (lo, hi))
+        rep.add(oid, 'proved', 'z3', time.time() - t0, detail='decode(%sencode(v)%s) == v for every admitted v of length %d..%d'
+                % ('pad(' if padded else '', ')' if padded else '', lo, hi))
     else:
         n, what, val = bad
         native = None
         if val is not None:
             try:
-                native = gs1._decode_value(fmt, typ, gs1._encode_value(fmt, typ, val))
+                e_ = gs1._encode_value(fmt, typ, val)
+                native = gs1._decode_value(fmt, typ, gs1._pad_value(fmt, typ, e_) if padded else e_)
             except Exception as e:      # noqa: B902
                 native = 'raises %s' % type(e).__name__
-        rep.refuted(oid, 'stdnum.gs1_128', 'codec %s %s' % (typ, fmt), 'codec %s/%s: %s for a value of length %d' % (typ, fmt, what, n),
-                    dict(function='stdnum.gs1_128:_decode_value', fmt=fmt, type=typ, input=repr(val), real=repr(native)), val is not None and native != val)
+        pc = 'padded codec' if padded else 'codec'
+        rep.refuted(oid, 'stdnum.gs1_128', '%s %s %s' % (pc, typ, fmt), '%s %s/%s: %s for a value of length %d' % (pc, typ, fmt, what, n),
+                    dict(function='stdnum.gs1_128:_decode_value', fmt=fmt, type=typ, input=repr(val), real=repr(native), padded=padded),
+                    val is not None and native != val)
 
 
 def codec_dates(rep, fmts, tier):
@@ -323,7 +342,19 @@ def composition(rep, table, tier):
             usable.append((ai, v))
         except Exception:      # noqa: B902
             continue
+    # variable-length text elements also with a value shorter than the maximum (the padded / separated case)
+    props_ = dict(table)
+    short = []
+    for ai, v in usable:
+        p = props_[ai]
+        if p.get('fnc1') and p['type'] == 'str' and ai not in gs1._ai_validators and isinstance(v, str) and len(v) > 2:
+            rng = lengths_of(p['format'])
+            if rng and rng[0] < len(v):
+                short.append((ai, v[:max(rng[0], len(v) // 2)]))
     pairs = [(a, b) for a in usable for b in usable if a[0] != b[0]]
+    pairs_short = [(a, b) for a in short for b in usable if a[0] != b[0]]
+    if tier == 'quick':
+        pairs_short = rnd.sample(pairs_short, min(len(pairs_short), 800))
     if tier == 'quick':
         pairs = rnd.sample(pairs, min(len(pairs), 2500))
     n = 0
@@ -337,7 +368,7 @@ def composition(rep, table, tier):
                     return 'element %s/%s is not read back' % fmt_of[k_]
             return 'extra elements read back'
         return str(back).split(':')[0]
-    for (a, va), (b, vb) in pairs:
+    for (a, va), (b, vb) in pairs + pairs_short:
         d = {a: va, b: vb}
         for sep in ('', '\x1d', '[FNC1]', '~1'):
             for par in (False, True):
@@ -431,6 +462,11 @@ def check(prop, tier, args):
         codec_symbolic(rep, fmt, 'str')
     for fmt in sorted(kinds.get('int', ())):
         codec_symbolic(rep, fmt, 'int')
+    # variable-length elements written without a separator are padded by encode() and cut at _max_length by info()
+    variable = sorted({(p.get('type'), p.get('format')) for ai, p in table if p.get('fnc1')})
+    for typ, fmt in variable:
+        if typ in ('str', 'int'):
+            codec_symbolic(rep, fmt, typ, padded=True)
     codec_dates(rep, sorted(kinds.get('date', ())), tier)
     codec_decimals(rep, sorted(kinds.get('decimal', ())), tier)
     framing(rep, table)
